@@ -233,23 +233,38 @@ func NewOrderExpr(scanner parser.Scanner, a, key Expr) Expr {
 		func(ctx context.Context, a, less Value, local Scope) (Value, error) {
 			if x, ok := a.(Set); ok {
 				if l, ok := less.(Closure); ok {
+					// the first error raised while comparing; sort.Sort has no way to stop early
+					var lessErr error
 					values, err := OrderBy(x,
 						func(value Value) (Value, error) {
 							return value, nil
 						},
 						func(a, b Value) bool {
+							if lessErr != nil {
+								return false
+							}
 							c, err := SetCall(ctx, l, a)
 							if err != nil {
-								panic(err)
+								lessErr = err
+								return false
 							}
-							less, err := SetCall(ctx, c.(Closure), b)
+							f, is := c.(Set)
+							if !is {
+								lessErr = errors.Errorf("'order' rhs must return a function, not %s", ValueTypeAsString(c))
+								return false
+							}
+							less, err := SetCall(ctx, f, b)
 							if err != nil {
-								panic(err)
+								lessErr = err
+								return false
 							}
 							return less.IsTrue()
 						})
 					if err != nil {
 						return nil, err
+					}
+					if lessErr != nil {
+						return nil, lessErr
 					}
 					return NewArray(values...), nil
 				}
